@@ -538,3 +538,29 @@ PROPS["C08"] = {
     "level_text": "Bounded symbolic model checking of the real cryptz helpers with the real crypto/cipher CBC code on top of an uninterpreted block cipher: keys, IVs, nonces, plaintexts and arbitrary ciphertexts are symbolic bytes; padding, length helpers, CBC chaining (against an independent reference over the same E_k), aliasing layouts, error paths and the exact arguments reaching GCM Seal/Open are decided by the solver.",
     "level_note": "Trusted: go/ssa, gosym, z3, and the stated cryptographic assumptions (AES/GCM are not themselves verified).",
 }
+
+# ------------------------------------------------------------------------------------------- C09
+c09 = "vh/c09."
+PROPS["C09"] = {
+    "patterns": ["./c09"],
+    "level": "model_checking",
+    "quick": (
+        [J(c09 + "CBC", np=n, ns=s) for (n, s) in ((0, 0), (1, 1), (3, 2), (15, 1), (16, 3), (17, 1))]
+        + [J(c09 + "GCM", np=n, ns=s, na=a) for (n, s, a) in ((0, 1, 0), (1, 1, 1), (3, 2, 2), (17, 1, 1))]
+        + [J(c09 + "Garbage", n=n) for n in (0, 1, 8, 15, 16, 17, 31, 32, 33, 40)]
+        + [J(c09 + "Stream", np=n, cuts=c, covers=["short read", "data returned together with EOF"]) for (n, c) in ((1, 1), (3, 2))]
+        + [J(c09 + "Stream", np=0, cuts=1)]
+    ),
+    "thorough": (
+        [J(c09 + "CBC", np=n, ns=s) for n in (0, 1, 2, 15, 16, 17, 31, 32, 33) for s in (0, 1, 3)]
+        + [J(c09 + "GCM", np=n, ns=s, na=a) for n in (0, 1, 3, 16, 17) for (s, a) in ((1, 0), (2, 2), (3, 1))]
+        + [J(c09 + "Garbage", n=n) for n in range(0, 41)]
+        + [J(c09 + "Stream", np=n, cuts=c) for (n, c) in ((0, 1), (1, 1), (3, 2), (6, 3), (17, 2))]
+    ),
+    "bounds": {"quick": "plaintexts of 0, 1, 3, 15, 16, 17 symbolic bytes, secrets of 0..3 and additional data of 0..2 symbolic bytes (string and []byte forms), symbolic 8-byte salt; Encrypt/GCMEncrypt = base64/hex of the raw message; arbitrary text of <= 4 characters offered to the text wrappers Decrypt/GCMDecrypt; every single-byte change of the decoded GCM message (magic, salt, ciphertext, tag), of the secret or of the additional data; arbitrary input of 0, 1, 8, 15..17, 31..33, 40 symbolic bytes to every decryption entry point; streams of 0..3 plaintext bytes with up to 2 short reads at arbitrary positions per reader and data optionally returned together with EOF",
+               "thorough": "plaintexts up to 33 bytes, garbage of every length 0..40, streams up to 17 bytes with 3 short reads"},
+    "outside": ["Decrypt/GCMDecrypt applied to a real ciphertext TEXT: the ciphertext bytes are outputs of uninterpreted functions, so the base64/hex character decoders fork on every character (2^40+ paths); the raw-message functions they delegate to (SaltBySecretCBCDecrypt/SaltBySecretGCMDecrypt) are checked instead, and the text form of the output is checked on the encrypt side", "interoperability with the openssl binary beyond 'same byte layout and same MD5 derivation chain' (MD5/AES/GCM/CTR are uninterpreted functions)", "more than 3 short reads per stream", "writers that accept fewer bytes than offered (io.Writer contract forbids it without an error)"],
+    "assumptions": ["MD5 is an uninterpreted function per input length; two derivations with different secret/salt give different keys (matching of Seal/Open is syntactic, i.e. no MD5 collision is assumed)", "AES-GCM authenticity: Open succeeds exactly on the output of a Seal with the same key, nonce and additional data", "AES-CTR is a keystream determined by key, IV and position", "crypto/rand delivers an arbitrary salt"],
+    "level_text": "Bounded symbolic model checking of the real cryptz code: plaintext, secret, additional data, salt and garbage input are symbolic bytes; the OpenSSL wire format is compared with an independent EVP_BytesToKey/CBC/GCM construction over the same uninterpreted primitives, round trips and tamper rejection are decided by the solver, and the stream functions are driven through readers whose chunk sizes are symbolic.",
+    "level_note": "Trusted: go/ssa, gosym, z3, and the stated cryptographic assumptions; encoding/base64, encoding/hex, io.Copy and cipher.StreamReader/Writer run from their own SSA.",
+}
